@@ -43,6 +43,8 @@ func init() {
 			{ID: "C20-R20", Title: "block comments end at the first closer", Floor: 1, Run: blockCommentsEndAtTheFirstCloser},
 			{ID: "C20-R21", Title: "diagnostics store their text as given", Floor: 3, Run: diagnosticsStoreTheirTextAsGiven},
 			{ID: "C20-R22", Title: "compile errors carry a position", Floor: 10, Run: compileErrorsCarryAPosition},
+			{ID: "C20-R23", Title: "commas are followed by a step over line breaks", Floor: 5, Run: commasAreFollowedByANewlineStep},
+			{ID: "C20-R24", Title: "nodes are not built on the token before without a look at it", Floor: 1, Run: nodesAreNotBuiltOnTheTokenBefore},
 		},
 	})
 }
